@@ -275,6 +275,11 @@ def pdurClauses (args : List String) (cur out : List String) (res : String) : Li
     ("refused_invalid", !(args.contains "b") || res == "err"),
     ("preserved", res != "ok" || rows.all (fun (a, c, o) => if a == "e" then o == c else if a.startsWith "o" then o == (a.drop 1).toString else true)) ]
 
+/-- "validation never panics": `LoadJSON` / `Validate` of a zero-value (never initialised, or refused before Default()) section
+object return a value (case kind `zero`, round 8c) -/
+def zeroClauses (res : String) : List (String × Bool) :=
+  [ ("zero_value_no_crash", res != "panic") ]
+
 end Util
 
 end CV.C15
